@@ -432,20 +432,56 @@ func c15Verify(r *core.Report, p *core.Prog, verify, verifySig, hashData *ssa.Fu
 	vrm, key := verifySig.Params[0], verifySig.Params[1]
 	okBody := false
 	why := "no `return true`"
-	for _, ret := range core.Returns(verifySig) {
-		k, isK := ret.Results[0].(*ssa.Const)
-		if isK && k.Value != nil && k.Value.ExactString() == "false" {
-			continue
+	// every way the function can yield true: a `return true`, or a returned value that is the
+	// verification's own boolean (directly, or as the right operand of a short-circuit whose
+	// other edges are the constant false); each is judged under the facts that hold there
+	type trueCase struct {
+		facts  []core.Fact
+		viaVal *ssa.Call // non-nil: the value returned IS the ok of this Verify call
+		pos    token.Pos
+	}
+	var cases []trueCase
+	okBody = true
+	var addValue func(v ssa.Value, facts []core.Fact, pos token.Pos, depth int)
+	addValue = func(v ssa.Value, facts []core.Fact, pos token.Pos, depth int) {
+		if k, isK := v.(*ssa.Const); isK && k.Value != nil {
+			if k.Value.ExactString() == "true" {
+				cases = append(cases, trueCase{facts, nil, pos})
+			}
+			return
 		}
-		if !isK {
-			// returns a computed bool: accept only the (ok && err == nil) shape → not recognised
-			okBody, why = false, "returns a computed value at "+p.Pos(ret.Pos())
+		if e, ok := v.(*ssa.Extract); ok && e.Index == 0 {
+			if c, ok := e.Tuple.(*ssa.Call); ok && core.MethodName(c.Common()) == "Verify" {
+				cases = append(cases, trueCase{facts, c, pos})
+				return
+			}
+		}
+		if ph, ok := v.(*ssa.Phi); ok && depth < 3 {
+			for i, e := range ph.Edges {
+				pred := ph.Block().Preds[i]
+				addValue(e, append(core.FactsAt(pred), factsOfEdge(pred, ph.Block())...), pos, depth+1)
+			}
+			return
+		}
+		okBody, why = false, "returns a value that is neither a constant nor the verification's result at "+p.Pos(pos)
+	}
+	for _, ret := range core.Returns(verifySig) {
+		addValue(core.ResultValue(ret, 0), core.FactsAt(ret.Block()), ret.Pos(), 0)
+	}
+	if okBody && len(cases) == 0 {
+		okBody, why = false, "no way to return true"
+	}
+	for _, tc := range cases {
+		if !okBody {
 			break
 		}
 		// return true: needs facts
 		var vcall *ssa.Call
 		okTrue, errNil, keySet := false, false, false
-		for _, f := range core.FactsAt(ret.Block()) {
+		if tc.viaVal != nil {
+			vcall, okTrue = tc.viaVal, true
+		}
+		for _, f := range tc.facts {
 			cv, taken := stripNot(f.Cond, f.Taken)
 			if e, ok := cv.(*ssa.Extract); ok && taken && e.Index == 0 {
 				if c, ok := e.Tuple.(*ssa.Call); ok && core.MethodName(c.Common()) == "Verify" {
@@ -454,7 +490,7 @@ func c15Verify(r *core.Report, p *core.Prog, verify, verifySig, hashData *ssa.Fu
 			}
 		}
 		if vcall != nil {
-			for _, f := range core.FactsAt(ret.Block()) {
+			for _, f := range tc.facts {
 				if x, isNil, ok := core.NilFact(f); ok && isNil {
 					if e, ok := x.(*ssa.Extract); ok && e.Tuple == ssa.Value(vcall) && e.Index == 1 {
 						errNil = true
@@ -528,7 +564,8 @@ func relPermits(holds, bad token.Token) bool {
 func c15Delta(r *core.Report, p *core.Prog, h *ssa.Function, pay *ssa.Call, reqRoot, prevRoot ssa.Value, load *ssa.Call) {
 	val := pay.Call.Args[4]
 	// find SUB in the backward slice of val
-	var sub *ssa.BinOp
+	var subX, subY ssa.Value
+	var subPos token.Pos
 	seen := map[ssa.Value]bool{}
 	var price []ssa.Value
 	var walk func(v ssa.Value)
@@ -540,7 +577,7 @@ func c15Delta(r *core.Report, p *core.Prog, h *ssa.Function, pay *ssa.Call, reqR
 		switch x := v.(type) {
 		case *ssa.BinOp:
 			if x.Op == token.SUB && isLoadOf(x.X, reqRoot, ".ReadMarker.ReadCounter") {
-				sub = x
+				subX, subY, subPos = x.X, x.Y, x.Pos()
 				return
 			}
 			walk(x.X)
@@ -554,6 +591,34 @@ func c15Delta(r *core.Report, p *core.Prog, h *ssa.Function, pay *ssa.Call, reqR
 				walk(e)
 			}
 		case *ssa.Call:
+			// a helper of the contract that computes the charge from (price, counter, last):
+			// the difference of two of its parameters, mapped back to the arguments
+			if cal := x.Call.StaticCallee(); cal != nil && cal.Pkg != nil && cal.Pkg.Pkg.Path() == pkgStorage && cal.Blocks != nil && subX == nil {
+				for _, hb := range cal.Blocks {
+					for _, hin := range hb.Instrs {
+						bo, ok := hin.(*ssa.BinOp)
+						if !ok || bo.Op != token.SUB {
+							continue
+						}
+						pi, pj := core.ParamOf(unconv(bo.X)), core.ParamOf(unconv(bo.Y))
+						if pi == nil || pj == nil || unconv(bo.X) != ssa.Value(pi) || unconv(bo.Y) != ssa.Value(pj) {
+							continue
+						}
+						ii, jj := -1, -1
+						for k, prm := range cal.Params {
+							if prm == pi {
+								ii = k
+							}
+							if prm == pj {
+								jj = k
+							}
+						}
+						if ii >= 0 && jj >= 0 && ii < len(x.Call.Args) && jj < len(x.Call.Args) && isLoadOf(x.Call.Args[ii], reqRoot, ".ReadMarker.ReadCounter") {
+							subX, subY, subPos = x.Call.Args[ii], x.Call.Args[jj], x.Pos()
+						}
+					}
+				}
+			}
 			for _, a := range x.Call.Args {
 				walk(a)
 			}
@@ -576,7 +641,7 @@ func c15Delta(r *core.Report, p *core.Prog, h *ssa.Function, pay *ssa.Call, reqR
 		}
 	}
 	walk(val)
-	if !r.Check(sub != nil, "C15.delta", "read_redeem:amount-from-counter-delta", p.Pos(pay.Pos()), "the paid amount derives from <request>.ReadMarker.ReadCounter − <last counter>; slice of the amount: "+describe(val)) {
+	if !r.Check(subX != nil, "C15.delta", "read_redeem:amount-from-counter-delta", p.Pos(pay.Pos()), "the paid amount derives from <request>.ReadMarker.ReadCounter − <last counter>; slice of the amount: "+describe(val)) {
 		return
 	}
 	// the subtrahend: phi/alloc of {0, prev.ReadMarker.ReadCounter}; the stored-counter
@@ -610,7 +675,7 @@ func c15Delta(r *core.Report, p *core.Prog, h *ssa.Function, pay *ssa.Call, reqR
 			vals = append(vals, v)
 		}
 	}
-	collect(sub.Y, 0)
+	collect(subY, 0)
 	for _, v := range vals {
 		if k, ok := core.ConstInt(v); ok && k == 0 {
 			continue
@@ -621,9 +686,9 @@ func c15Delta(r *core.Report, p *core.Prog, h *ssa.Function, pay *ssa.Call, reqR
 		}
 		okSubtr = false
 	}
-	r.Check(okSubtr && hasPrev, "C15.delta", "read_redeem:subtrahend-is-last-stored-counter", p.Pos(sub.Pos()), "what is subtracted is the counter of the marker loaded from this request's key (0 only when none is stored); got "+describe(sub.Y))
+	r.Check(okSubtr && hasPrev, "C15.delta", "read_redeem:subtrahend-is-last-stored-counter", p.Pos(subPos), "what is subtracted is the counter of the marker loaded from this request's key (0 only when none is stored); got "+describe(subY))
 	// on the edge where the lookup succeeded (err == nil) the subtrahend must be the stored counter, not 0
-	if ph, ok := sub.Y.(*ssa.Phi); ok {
+	if ph, ok := subY.(*ssa.Phi); ok {
 		ev := core.ErrResult(load)
 		okEdge := true
 		for i, e := range ph.Edges {
@@ -635,7 +700,7 @@ func c15Delta(r *core.Report, p *core.Prog, h *ssa.Function, pay *ssa.Call, reqR
 				}
 			}
 		}
-		r.Check(okEdge, "C15.delta", "read_redeem:zero-only-when-not-present", p.Pos(sub.Pos()), "the delta starts from 0 only on the lookup's error edge (no marker stored); with a stored marker it starts from its counter")
+		r.Check(okEdge, "C15.delta", "read_redeem:zero-only-when-not-present", p.Pos(subPos), "the delta starts from 0 only on the lookup's error edge (no marker stored); with a stored marker it starts from its counter")
 	}
 	// price: ReadPrice of the entry matched by BlobberID
 	okPrice := false
@@ -644,6 +709,14 @@ func c15Delta(r *core.Report, p *core.Prog, h *ssa.Function, pay *ssa.Call, reqR
 		base, _ := core.BaseObject(pl)
 		// base: phi{nil, elem}
 		var elems []ssa.Value
+		if fc, ok := base.(*ssa.Call); ok {
+			if okF, d := c15FinderByBlobberID(fc, reqRoot); okF {
+				okPrice = true
+				continue
+			} else if d != "" {
+				why = d
+			}
+		}
 		if ph, ok := base.(*ssa.Phi); ok {
 			for _, e := range ph.Edges {
 				if !core.IsNilConst(e) {
@@ -955,4 +1028,57 @@ func c15Mover(r *core.Report, p *core.Prog, mover *ssa.Function) {
 		okDR = okDR && len(methodCalls(mover, "DistributeRewards")) == 1
 	}
 	r.Check(okDR, "C15.mover", "moveToBlobber:reward-equals-debit", p.Pos(mover.Pos()), "exactly `value` is distributed to the blobber's stake pool once, error aborting; "+why)
+}
+
+// c15FinderByBlobberID: fc is `find(list, id)` — a helper of the contract every non-nil
+// result of which is an element of its slice parameter whose BlobberID equals its string
+// parameter — called with the marker's BlobberID.
+func c15FinderByBlobberID(fc *ssa.Call, reqRoot ssa.Value) (bool, string) {
+	h := fc.Call.StaticCallee()
+	if h == nil || h.Pkg == nil || h.Pkg.Pkg.Path() != pkgStorage || h.Blocks == nil {
+		return false, ""
+	}
+	idArg := -1
+	for i, a := range fc.Call.Args {
+		if isLoadOf(a, reqRoot, ".ReadMarker.BlobberID") {
+			idArg = i
+		}
+	}
+	if idArg < 0 || idArg >= len(h.Params) {
+		return false, "the entry finder is not given the marker's BlobberID"
+	}
+	n := 0
+	for _, ret := range core.Returns(h) {
+		v := core.ResultValue(ret, 0)
+		if core.IsNilConst(v) {
+			continue
+		}
+		n++
+		matched := false
+		for _, f := range CmpFacts(ret.Block()) {
+			if f.Op != token.EQL {
+				continue
+			}
+			x, y := f.X, f.Y
+			if x == ssa.Value(h.Params[idArg]) {
+				x, y = y, x
+			}
+			if y != ssa.Value(h.Params[idArg]) {
+				continue
+			}
+			if isFieldLoadOn(x, v, "BlobberID") || isFieldLoadOn(x, canonObj(v), "BlobberID") {
+				matched = true
+			}
+			// range variable kept in a cell
+			if ld, ok := x.(*ssa.UnOp); ok {
+				if fa, ok := ld.X.(*ssa.FieldAddr); ok && core.FieldOf(fa) != nil && core.FieldOf(fa).Name() == "BlobberID" && canonObj(fa.X) == canonObj(v) {
+					matched = true
+				}
+			}
+		}
+		if !matched {
+			return false, "the entry finder can return an entry whose BlobberID was not compared with the requested id"
+		}
+	}
+	return n > 0, ""
 }
